@@ -75,12 +75,7 @@ Theorem C12_read_paths_agree :
   (forall fl, In fl fields -> df_get_field dflt df fl = column proj rdflt s fl) /\
   transpose_rows (snd df) (map (fun fl => (fl, df_get_field dflt df fl)) fields) = spec /\
   df_iterelites dflt fields df = spec.
-Proof.
-  intros R V dflt fields dim proj rdflt Hnd Hdim s. cbv zeta.
-  repeat split;
-    eauto using read_dict_agrees, read_tuple_agrees, read_single_agrees, read_iter_agrees, get_field_agrees,
-                get_field_rows_agree, iterelites_agrees.
-Qed.
+Proof. exact read_paths_agree. Qed.
 
 (** the scalar columns name_0 .. name_{d-1} of the data frame are the components of that field, in olist order *)
 Theorem C12_pandas_columns :
